@@ -1174,6 +1174,9 @@ def _replay(f):
         ev = [_unjson(e) for e in f['events']]
         print('implementation:', impl_script(ports, f['has_app'], ev))
         print('node clauses  :', [x['kind'] for x in node_checks(ports, f['has_app'], ev)])
+    elif 'reply_to' in f:
+        # a failing reply: replay the request it answers, the reply is sent again as part of it
+        _replay(f['reply_to'])
     elif 'topology' in f and 'source' in f:
         topo = Topo.from_desc(f['topology'])
         net = build(topo)
